@@ -8,6 +8,7 @@ import Midgard.Model.Sp3
 import Midgard.Generated.Sp3Cols
 import Midgard.Spec.Sp3
 import Midgard.Proofs.FixedCol
+import Midgard.Proofs.Sp3File
 
 namespace Midgard.Props.C13
 open Midgard.Sp3 Midgard.Generated.Sp3 Midgard.FixedCol Midgard.Text Midgard.Decimal
@@ -215,6 +216,353 @@ theorem dataset_epoch (e : Epoch) : datasetSeconds e = fileSeconds e := by
   rw [hq]
   grind
 
+
+/-! ## 6. Whole files: `parseFile (render F) = F` -/
+
+section File
+open Midgard.Spec.Sp3File Midgard.Spec.NumText
+
+theorem sigma_codeText (base unit : Rat) (c : Option Nat) :
+    sigmaOf base unit (codeText c) = some (c.map fun k => base ^ k * unit) := by
+  cases c with
+  | none => rfl
+  | some k => exact sigma_code base unit _ k (natDigits_ne_nil k) (parseFloat_natDigits k)
+
+/-- **a rendered position record parses to the entry the property names**: F14.6 kilometres ×1000,
+microseconds × 10⁻⁶ × c, sentinels and blank accuracy columns ↦ NaN, exponent `k` ↦ `base^k` — for every
+record whose values fit their columns, with or without the accuracy/flag columns, padded to 80 columns or
+not -/
+theorem pos_line (F : Factors) (h : Header) (hv : h.version = 'c' ∨ h.version = 'd') (e : Epoch) (r : PosRec)
+    (hr : r.wf = true) :
+    parsePosition F (expectedMeta h) e (sliceAll Midgard.Spec.Sp3.recP (rstrip (posLine r))) =
+      some (Midgard.Spec.Sp3File.expectedEntry F h e r) := by
+  rw [pos_fields r hr, ← meta4_eq]
+  obtain ⟨mv, mp, mc⟩ := meta4_lookup h
+  have hva : [h.version] ≠ ['a'] := by rcases hv with e | e <;> rw [e] <;> decide
+  have hfl : (r.acc.getD noAcc).flags.length = 4 := by
+    have := acc_wf_of r hr
+    simp only [Acc.wf, Bool.and_eq_true] at this
+    exact okCells_length _ _ this.2
+  have := pos_record F (meta4 h) e ((Midgard.Spec.Sp3.recP.map (·.name)).zip (posTexts r)) [h.version]
+    (basePosVal h) (baseClkVal h) (decVal 6 r.x) (decVal 6 r.y) (decVal 6 r.z) (decVal 6 r.clk)
+    [(r.acc.getD noAcc).sx, (r.acc.getD noAcc).sy, (r.acc.getD noAcc).sz] (r.acc.getD noAcc).sclk
+    mv hva mp mc
+    (by simp [Midgard.Spec.Sp3.recP, posTexts, Midgard.Sp3.get, parseFloat_fmtDec])
+    (by simp [Midgard.Spec.Sp3.recP, posTexts, Midgard.Sp3.get, parseFloat_fmtDec])
+    (by simp [Midgard.Spec.Sp3.recP, posTexts, Midgard.Sp3.get, parseFloat_fmtDec])
+    (by simp [Midgard.Spec.Sp3.recP, posTexts, Midgard.Sp3.get, parseFloat_fmtDec])
+    (by simp [Midgard.Spec.Sp3.recP, posTexts, Midgard.Sp3.get, sigma_codeText])
+    (by simp [Midgard.Spec.Sp3.recP, posTexts, Midgard.Sp3.get, sigma_codeText])
+    rfl
+  rw [this]
+  simp [expectedEntry, Midgard.Spec.Sp3File.expectedEntry, Midgard.Spec.Sp3.recP, posTexts, Midgard.Sp3.get]
+
+
+/-- the epoch-line field list of the standard (what `cols_eq_spec` says the parser's list is) -/
+def specEpochFields : List (Option String) :=
+  [Option.none, some "year", some "month", some "day", some "hour", some "minute", some "second"]
+
+theorem filterMap_inert (F : Factors) (m : Meta) (L : Layout) (e : Epoch) (tl : List Str) (h : ∀ l ∈ tl, Inert l) :
+    entriesOf F m L e tl = [] := by
+  unfold entriesOf
+  rw [List.filterMap_eq_nil_iff]
+  intro l hl
+  simp [(h l hl).2.1]
+
+/-- the entries a block's record lines contribute: one per position record, none for V / EP / EV lines
+or for a trailer of inert lines -/
+theorem entriesOf_body (F : Factors) (h : Header) (hv : h.version = 'c' ∨ h.version = 'd') (e : Epoch)
+    (recs : List PosRec) (hrecs : ∀ r ∈ recs, r.wf = true) (tl : List Str) (htl : ∀ l ∈ tl, Inert l) :
+    entriesOf F (expectedMeta h) Midgard.Spec.Sp3.recP e ((recs.flatMap recLines).map rstrip ++ tl) =
+      recs.map (Midgard.Spec.Sp3File.expectedEntry F h e) := by
+  induction recs with
+  | nil => simpa using filterMap_inert F _ _ e tl htl
+  | cons r rs ih =>
+    have ih' := ih (fun r' hr' => hrecs r' (by simp [hr']))
+    have hex : entriesOf F (expectedMeta h) Midgard.Spec.Sp3.recP e ((r.extras.map extraLine).map rstrip) = [] := by
+      apply filterMap_inert
+      intro l hl
+      simp only [List.map_map, List.mem_map, Function.comp] at hl
+      obtain ⟨x, _, rfl⟩ := hl
+      exact inert_extra x
+    unfold entriesOf at ih' hex ⊢
+    simp only [List.flatMap_cons, recLines, List.map_append, List.map_cons, List.cons_append, List.append_assoc,
+      List.filterMap_cons, head_posLine, if_true, pos_line F h hv e r (hrecs r (by simp)), List.filterMap_append, hex,
+      List.nil_append, List.map_cons, List.cons.injEq, true_and]
+    simpa [List.filterMap_append] using ih'
+
+theorem body_lines (recs : List PosRec) (tl : List Str) (l : Str) (hl : l ∈ (recs.flatMap recLines).map rstrip ++ tl) :
+    (∃ r ∈ recs, l = rstrip (posLine r)) ∨ (∃ x, l = rstrip (extraLine x)) ∨ l ∈ tl := by
+  rcases List.mem_append.mp hl with h | h
+  · simp only [List.mem_map, List.mem_flatMap, recLines, List.mem_cons] at h
+    obtain ⟨l', ⟨r, hr, hl'⟩, rfl⟩ := h
+    rcases hl' with rfl | ⟨x, _, rfl⟩
+    · exact Or.inl ⟨r, hr, rfl⟩
+    · exact Or.inr (Or.inl ⟨x, rfl⟩)
+  · exact Or.inr (Or.inr h)
+
+/-- **one epoch block of a rendered file**: `* epoch` line, its position records with their V / EP / EV
+lines, possibly the closing `EOF` — exactly one entry per position record, in order, each with the
+block's epoch and the values the property names -/
+theorem block_ok (F : Factors) (h : Header) (hv : h.version = 'c' ∨ h.version = 'd') (acc : List Entry)
+    (b : EpochBlock) (hb : ∀ r ∈ b.recs, r.wf = true) (tl : List Str) (htl : ∀ l ∈ tl, Inert l)
+    (hfresh : acc.any (·.epoch = b.epoch) = false) :
+    parseBlock F (expectedMeta h) specEpochFields Midgard.Spec.Sp3.recP acc ((blockLines b).map rstrip ++ tl) =
+      some (acc ++ b.recs.map (Midgard.Spec.Sp3File.expectedEntry F h b.epoch)) := by
+  have hform : (blockLines b).map rstrip ++ tl =
+      rstrip (epochLine b.epoch) :: ((b.recs.flatMap recLines).map rstrip ++ tl) := by
+    simp [blockLines]
+  rw [hform]
+  have := (block_entries F (expectedMeta h) specEpochFields Midgard.Spec.Sp3.recP acc (rstrip (epochLine b.epoch))
+    ((b.recs.flatMap recLines).map rstrip ++ tl) b.epoch (star_epochLine b.epoch) (parseDate_epochLine b.epoch) hfresh
+    (by
+      intro l hl
+      rcases body_lines _ _ l hl with ⟨r, _, rfl⟩ | ⟨x, rfl⟩ | h'
+      · intro e0
+        have := head_posLine r
+        rw [e0] at this
+        simp at this
+      · exact (inert_extra x).1
+      · exact (htl l h').1)
+    (by
+      intro l hl hp
+      rcases body_lines _ _ l hl with ⟨r, hr, rfl⟩ | ⟨x, rfl⟩ | h'
+      · rw [pos_line F h hv b.epoch r (hb r hr)]; rfl
+      · exact absurd hp (inert_extra x).2.1
+      · exact absurd hp (htl l h').2.1)).1
+  rw [this, entriesOf_body F h hv b.epoch b.recs hb tl htl]
+
+theorem epoch_expected (F : Factors) (h : Header) (e : Epoch) (recs : List PosRec) (e' : Epoch) (hne : e ≠ e') :
+    (recs.map (Midgard.Spec.Sp3File.expectedEntry F h e)).any (·.epoch = e') = false := by
+  rw [List.any_eq_false]
+  intro en hen
+  simp only [List.mem_map] at hen
+  obtain ⟨r, _, rfl⟩ := hen
+  simpa [Midgard.Spec.Sp3File.expectedEntry] using hne
+
+/-- **all epoch blocks, by induction over the epochs**: the entries of the blocks, block after block -/
+theorem blocks_fold (F : Factors) (h : Header) (hv : h.version = 'c' ∨ h.version = 'd') (eps : List EpochBlock) :
+    ∀ (acc : List Entry), eps ≠ [] → (∀ b ∈ eps, ∀ r ∈ b.recs, r.wf = true) → distinct (eps.map (·.epoch)) = true →
+      (∀ b ∈ eps, acc.any (·.epoch = b.epoch) = false) →
+      (attachLast (eps.map fun b => (blockLines b).map rstrip) [rstrip eofLine]).foldlM
+          (parseBlock F (expectedMeta h) specEpochFields Midgard.Spec.Sp3.recP) acc =
+        some (acc ++ eps.flatMap fun b => b.recs.map (Midgard.Spec.Sp3File.expectedEntry F h b.epoch)) := by
+  induction eps with
+  | nil => intro acc hne; exact absurd rfl hne
+  | cons b rest ih =>
+    intro acc _ hwf hd hfresh
+    have heof : ∀ l ∈ [rstrip eofLine], Inert l := by
+      intro l hl
+      rw [List.mem_singleton.mp hl]
+      exact inert_eof
+    cases rest with
+    | nil =>
+      simp only [List.map_cons, List.map_nil, attachLast, List.foldlM_cons, List.foldlM_nil, List.flatMap_cons,
+        List.flatMap_nil, List.append_nil]
+      rw [block_ok F h hv acc b (hwf b (by simp)) _ heof (hfresh b (by simp))]
+      rfl
+    | cons b' rest' =>
+      simp only [distinct, List.map_cons, Bool.and_eq_true, Bool.not_eq_eq_eq_not, Bool.not_true] at hd
+      have hb0 := block_ok F h hv acc b (hwf b (by simp)) [] (by simp) (hfresh b (by simp))
+      simp only [List.append_nil] at hb0
+      have ih' := ih (acc ++ b.recs.map (Midgard.Spec.Sp3File.expectedEntry F h b.epoch)) (by simp)
+        (fun x hx => hwf x (by simp [hx]))
+        (by simpa [distinct] using hd.2)
+        (by
+          intro x hx
+          rw [List.any_append, hfresh x (by simp [hx])]
+          have hne : b.epoch ≠ x.epoch := by
+            intro e0
+            have hc : (b'.epoch :: rest'.map (·.epoch)).contains b.epoch = true := by
+              rw [List.contains_iff_mem, e0]
+              simp only [List.mem_cons, List.mem_map] at hx ⊢
+              rcases hx with rfl | hx
+              · exact Or.inl rfl
+              · exact Or.inr ⟨x, hx, rfl⟩
+            rw [hd.1] at hc
+            exact absurd hc (by simp)
+          simpa using epoch_expected F h b.epoch b.recs x.epoch hne)
+      simp only [List.map_cons, attachLast, List.foldlM_cons, hb0, Option.bind_eq_bind, Option.bind_some] at ih' ⊢
+      rw [ih']
+      simp [List.append_assoc]
+
+theorem splitBlocks_file (H : List Str) (bs : List (List Str)) (t : List Str) (hH : H ≠ [])
+    (hns : ∀ x ∈ H, ¬ Star x) (ht : ∀ x ∈ t, ¬ Star x)
+    (hbs : ∀ b ∈ bs, ∃ s body, b = s :: body ∧ Star s ∧ ∀ x ∈ body, ¬ Star x) :
+    splitBlocksAux (H ++ bs.flatten ++ t) [] = attachLast (H :: bs) t := by
+  cases H with
+  | nil => exact absurd rfl hH
+  | cons h0 body0 =>
+    exact splitBlocks_groups bs t ht hbs h0 body0 (fun x hx => hns x (by simp [hx]))
+
+theorem header_not_star (h : Header) : ∀ l ∈ (headerLines h).map rstrip, ¬ Star l := by
+  intro l hl
+  simp only [headerLines, List.map_append, List.map_cons, List.map_nil, List.map_map, List.mem_append, List.mem_cons,
+    List.mem_map, List.not_mem_nil, or_false, Function.comp] at hl
+  have other : ∀ x : HdrKind × Str, ¬ Star (rstrip (hdrOther x)) := by
+    intro x
+    obtain ⟨k, t⟩ := x
+    cases k
+    · exact not_star_of_head (t := ' ' :: t) (c := '+') (by decide) (by decide)
+    · exact not_star_of_head (t := '+' :: t) (c := '+') (by decide) (by decide)
+    · exact not_star_of_head (t := 'i' :: t) (c := '%') (by decide) (by decide)
+    · exact not_star_of_head (t := '*' :: t) (c := '/') (by decide) (by decide)
+  rcases hl with (((rfl | rfl) | ⟨x, _, rfl⟩) | (rfl | rfl | rfl | rfl)) | ⟨x, _, rfl⟩
+  · exact not_star_of_head (by decide) (by decide)
+  · exact not_star_of_head (by decide) (by decide)
+  · exact other x
+  · exact not_star_of_head (by decide) (by decide)
+  · exact not_star_of_head (t := percentCCont.tail) (c := '%') (by decide) (by decide)
+  · exact not_star_of_head (by decide) (by decide)
+  · exact not_star_of_head (t := percentFCont.tail) (c := '%') (by decide) (by decide)
+  · exact other x
+
+theorem nonl_fileLines (f : File) (hwf : f.wf = true) : ∀ l ∈ fileLines f, ∀ c ∈ l, c ≠ '\n' := by
+  simp only [File.wf, Bool.and_eq_true, List.all_eq_true] at hwf
+  intro l hl
+  simp only [fileLines, List.mem_append, List.mem_flatten, List.mem_map, List.mem_singleton] at hl
+  rcases hl with (hl | ⟨bl, ⟨b, hb, rfl⟩, hl⟩) | rfl
+  · exact nonl_headerLines f.hdr hwf.1.1 l hl
+  · simp only [blockLines, List.mem_cons, List.mem_flatMap, recLines, List.mem_map] at hl
+    rcases hl with rfl | ⟨r, hr, rfl | ⟨x, hx, rfl⟩⟩
+    · exact nonl_epochLine b.epoch
+    · exact nonl_posLine r (hwf.1.2 b hb r hr)
+    · have := hwf.1.2 b hb r hr
+      simp only [PosRec.wf, Bool.and_eq_true, List.all_eq_true] at this
+      exact nonl_extraLine x (this.2 x hx)
+  · intro c hc; revert hc; revert c; decide
+
+/-- **file_roundtrip**: for every abstract SP3-c/d file `f` — header fields, any number of `+`/`++`/`%i`/comment
+lines, epochs each with its position records (with or without accuracy codes and flags, sentinel values
+included, padded or not) followed by V / EP / EV lines — whose values fit their columns (`f.wf`), parsing
+the rendered text gives exactly the header fields of `f` and one entry per position record in file order,
+each with the epoch of its enclosing epoch line and the values `pos_record` names. -/
+theorem file_roundtrip (f : File) (hwf : f.wf = true) :
+    parseFile factors headerDefs epochFields recP (Midgard.Spec.Sp3File.render f) =
+      some ⟨expectedMeta f.hdr, expectedEntries factors f⟩ := by
+  obtain ⟨hrecP, _, hdefs, hef⟩ := cols_eq_spec
+  have hdefs' : headerDefs = specDefs := hdefs
+  have hef' : epochFields = specEpochFields := hef
+  rw [hrecP, hdefs', hef']
+  have hwf0 := hwf
+  simp only [File.wf, Bool.and_eq_true, List.all_eq_true] at hwf
+  obtain ⟨⟨hh, hrecs⟩, hdist⟩ := hwf
+  have hv : f.hdr.version = 'c' ∨ f.hdr.version = 'd' := by
+    have := hh
+    simp only [Header.wf, Bool.and_eq_true, Bool.or_eq_true, beq_iff_eq] at this
+    exact this.1.1.1.1.1.1.1.1.1
+  unfold parseFile Midgard.Spec.Sp3File.render
+  rw [splitOn_joinLines _ (nonl_fileLines f hwf0)]
+  simp only [List.reverse_append, List.reverse_cons, List.reverse_nil, List.nil_append, List.cons_append,
+    List.reverse_reverse]
+  have hlines : (fileLines f).map rstrip =
+      (headerLines f.hdr).map rstrip ++ ((f.epochs.map fun b => (blockLines b).map rstrip)).flatten ++ [rstrip eofLine] := by
+    simp [fileLines, List.map_append, List.map_flatten, List.map_map, Function.comp_def]
+  have hsplit := splitBlocks_file ((headerLines f.hdr).map rstrip) (f.epochs.map fun b => (blockLines b).map rstrip)
+    [rstrip eofLine] (by simp [headerLines]) (header_not_star f.hdr)
+    (by intro x hx; rw [List.mem_singleton.mp hx]; exact inert_eof.2.2)
+    (by
+      intro bl hbl
+      simp only [List.mem_map] at hbl
+      obtain ⟨b, _, rfl⟩ := hbl
+      refine ⟨rstrip (epochLine b.epoch), (b.recs.flatMap recLines).map rstrip, by simp [blockLines], star_epochLine _, ?_⟩
+      intro x hx
+      rcases body_lines b.recs [] x (by simpa using hx) with ⟨r, _, rfl⟩ | ⟨y, rfl⟩ | h'
+      · exact not_star_posLine r
+      · exact (inert_extra y).2.2
+      · simp at h')
+  rw [hlines, hsplit]
+  cases hep : f.epochs with
+  | nil =>
+    simp only [List.map_nil, attachLast]
+    have := header_fold f.hdr hh [rstrip eofLine] (by
+      intro l hl m
+      rw [List.mem_singleton.mp hl]
+      exact headerLine_eof m)
+    simp [this, expectedEntries, hep]
+  | cons b rest =>
+    have hm := header_fold f.hdr hh [] (by simp)
+    simp only [List.append_nil] at hm
+    have hb := blocks_fold factors f.hdr hv (b :: rest) [] (by simp)
+      (fun x hx r hr => hrecs x (by rw [hep]; exact hx) r hr) (by rw [← hep]; exact hdist) (by simp)
+    simp only [List.map_cons, attachLast] at hb ⊢
+    cases hrest : rest with
+    | nil =>
+      rw [hrest] at hb
+      simp only [List.map_nil, attachLast] at hb ⊢
+      rw [hm]
+      simp only [Option.bind_eq_bind, Option.bind_some]
+      rw [hb]
+      simp [expectedEntries, hep, hrest]
+    | cons b' rest' =>
+      rw [hrest] at hb
+      simp only [List.map_cons, attachLast] at hb ⊢
+      rw [hm]
+      simp only [Option.bind_eq_bind, Option.bind_some]
+      rw [hb]
+      simp [expectedEntries, hep, hrest]
+
+
+/-- the lengths of the seven columns of `parser.data` -/
+def columnLengths (es : List Entry) : List Nat :=
+  [(es.map (·.epoch)).length, (es.map (·.sat)).length, (es.map (·.pos)).length, (es.map (·.clk)).length,
+   (es.map (·.posSigma)).length, (es.map (·.clkSigma)).length, (es.map (·.system)).length]
+
+theorem length_expectedEntries (F : Factors) (f : File) :
+    (expectedEntries F f).length = (f.epochs.map (·.recs.length)).sum := by
+  unfold expectedEntries
+  induction f.epochs with
+  | nil => rfl
+  | cons b bs ih => simp [List.flatMap_cons, ih]
+
+/-- **all_columns_equal_length (file level)**: the seven columns delivered for a well-formed rendered file
+(time, satellite, sat_pos, sat_clock_bias, sat_pos_sigma, sat_clock_bias_sigma, system) all have as many
+rows as the file has position records; positions and position sigmas have three components in every row -/
+theorem all_columns_equal_length (f : File) (hwf : f.wf = true) :
+    ∃ p, parseFile factors headerDefs epochFields recP (Midgard.Spec.Sp3File.render f) = some p ∧
+      (∀ n ∈ columnLengths p.entries, n = (f.epochs.map (·.recs.length)).sum) ∧
+      ∀ en ∈ p.entries, en.pos.length = 3 ∧ en.posSigma.length = 3 := by
+  refine ⟨_, file_roundtrip f hwf, ?_, ?_⟩
+  · intro n hn
+    simp only [columnLengths, List.length_map, List.mem_cons, List.not_mem_nil, or_false, or_self] at hn
+    rw [hn, length_expectedEntries]
+  · intro en hen
+    simp only [expectedEntries, List.mem_flatMap, List.mem_map] at hen
+    obtain ⟨b, _, r, _, rfl⟩ := hen
+    simp [Midgard.Spec.Sp3File.expectedEntry]
+
+/-- a 2-epoch × 3-satellite SP3-d file, epochs 0.5 s apart: a position sentinel (`0.000000`), a clock
+sentinel (`999999.999999`), one record without accuracy columns, one with blank codes and flags, a V and
+an EP line, the second record padded to 80 columns -/
+def demoFile : File :=
+  let a1 : Acc := ⟨some 7, some 6, some 4, some 137, [[], [], [], []]⟩
+  let a2 : Acc := ⟨some 10, Option.none, some 8, Option.none, [['E'], ['P'], [], ['P']]⟩
+  let recs (k : Int) : List PosRec := [
+    ⟨"G01".toList, 10138887745 + k, -20456557725, -13455830128, 13095853, some a1, false, [(.vel, "G01  1234.5".toList)]⟩,
+    ⟨"E02".toList, 0, 13338131173, -6326904893, 999999999999, some a2, true, [(.ep, "E02  55 55 55 222".toList)]⟩,
+    ⟨"C03".toList, 1061483783, -15622426751, -21452532447, -30693182, Option.none, false, []⟩]
+  { hdr := { version := 'd',
+             line1 := ["P", "2016", "3", "1", "0", "0", "0.00000000", "2", "ORBIT", "IGb08", "HLM", "IGS"].map String.toList,
+             line2 := ["1886", "172800.00000000", "0.50000000", "57448", "0.0000000000000"].map String.toList,
+             satLines := [(.plus, "    3   G01E02C03  0  0".toList), (.plusplus, "         7  6  4".toList)],
+             fileType := ['M'], timeSys := "GPS".toList, basePos := 12500000, baseClk := 1025000000,
+             tailLines := [(.pci, "    0    0".toList), (.comment, " demo".toList)] },
+    epochs := [⟨⟨2016, 3, 1, 0, 0, 0⟩, recs 0⟩, ⟨⟨2016, 3, 1, 0, 0, 5000000⟩, recs 1000⟩] }
+
+/-- the hypotheses of `file_roundtrip` are satisfiable, and the instance is what one expects -/
+example : demoFile.wf = true := by decide +kernel
+
+example : ((parseFile factors headerDefs epochFields recP (Midgard.Spec.Sp3File.render demoFile)).map
+      fun p => p.entries.map (·.epoch.sec7)) = some [0, 0, 0, 5000000, 5000000, 5000000] := by
+  decide +kernel
+
+example : ((parseFile factors headerDefs epochFields recP (Midgard.Spec.Sp3File.render demoFile)).map
+      fun p => (p.entries.map (·.pos)).take 2) =
+    some [[some 10138887.745, some (-20456557.725), some (-13455830.128)], [Option.none, some 13338131.173, some (-6326904.893)]] := by
+  decide +kernel
+
+end File
+
 end Midgard.Props.C13
 
 #print axioms Midgard.Props.C13.layouts_sorted
@@ -229,3 +577,17 @@ end Midgard.Props.C13
 #print axioms Midgard.Props.C13.header_first_wins
 #print axioms Midgard.Props.C13.header_fields
 #print axioms Midgard.Props.C13.dataset_epoch
+#print axioms Midgard.Props.C13.sigma_codeText
+#print axioms Midgard.Props.C13.pos_line
+#print axioms Midgard.Props.C13.filterMap_inert
+#print axioms Midgard.Props.C13.entriesOf_body
+#print axioms Midgard.Props.C13.body_lines
+#print axioms Midgard.Props.C13.block_ok
+#print axioms Midgard.Props.C13.epoch_expected
+#print axioms Midgard.Props.C13.blocks_fold
+#print axioms Midgard.Props.C13.splitBlocks_file
+#print axioms Midgard.Props.C13.header_not_star
+#print axioms Midgard.Props.C13.nonl_fileLines
+#print axioms Midgard.Props.C13.file_roundtrip
+#print axioms Midgard.Props.C13.length_expectedEntries
+#print axioms Midgard.Props.C13.all_columns_equal_length
